@@ -3,7 +3,7 @@ CONSTANTS
   Shapes <- ShapesQ
   Kinds = {"all", "some"}
   UseDirs = {"r", "w"}
-  MaxIn = 3
+  MaxIn = 2
   MaxOps = 3
   Cap = 2
   IOV = 1
